@@ -286,6 +286,15 @@ class ProgGen:
             k = r2.choice(emitting)
             body.insert(r2.below(len(body) + 1), r2.choice(['// disabled for now:\r', '# old:\r', '\t#\r']) + body[k])
             self.stat('cr-in-remark')
+        if emitting and r2.chance(1, 5):
+            # a remark in non-ASCII text that ends in what would be a statement; as many multi-byte characters before it as the
+            # statement has bytes (an offset kept in characters instead of bytes would resume exactly at the statement)
+            k = r2.choice(emitting); st = body[k]
+            ch = r2.choice(['é', '–', '日', '😀'])
+            n = -(-len(st.encode()) // (len(ch.encode()) - 1))
+            pad = ' ' * (n * (len(ch.encode()) - 1) - len(st.encode()))
+            body.insert(r2.below(len(body) + 1), r2.choice(['# ', '// ']) + ch * n + ' disabled: ' + pad + st)
+            self.stat('non-ascii-remark')
         return ('\n'.join(head + body) + '\n').encode()
 
 
